@@ -319,6 +319,11 @@ def main():
             print("UNCONFIRMED property=%s obligation=%s harness=%s replay=%s (%s)" % (a.prop, c["obligation"], c["harness"], os.path.relpath(p, VERIF), oc))
         for m in inconcl[:20]:
             print("INCONCLUSIVE property=%s %s" % (a.prop, m))
+        # loops / recursion cut by the unwinding bound: the claim is bounded there (not a failure)
+        for h in ev["coverage"]["harnesses"]:
+            cuts = {k: v for k, v in (h.get("unwind_cuts") or {}).items() if k.startswith("loop:") or k.startswith("recursion")}
+            if cuts:
+                print("BOUNDED property=%s %s: unwinding bound %s cut %s" % (a.prop, h["id"], h.get("unwind"), ", ".join("%s x%d" % kv for kv in sorted(cuts.items()))))
         print("SUMMARY property=%s tier=%s harnesses=%d paths=%d obligations=%d discharged=%d violations=%d unconfirmed=%d inconclusive=%d wall=%.1fs" % (
             a.prop, a.tier, len(runs), paths, n_obl, n_dis, len(violations), len(unconfirmed), len(inconcl), time.time() - t0))
         if violations:
